@@ -287,7 +287,9 @@ func init() {
 			}
 			return encStr(influxql.QuoteString(ss[0]))
 		},
-		class:      func(args []string, out string) string { return fmt.Sprintf("grew-by-%d", strings.Count(out, ",")-strings.Count(args[0], ",")) },
+		class: func(args []string, out string) string {
+			return fmt.Sprintf("grew-by-%d", strings.Count(out, ",")-strings.Count(args[0], ","))
+		},
 		nontrivial: func(args []string, out string) bool { return args[0] != "s:" }})
 	register(&stream{name: "quote.needs", gen: genQuoteNeeds, prop: propQuoteNeeds,
 		impl: func(args []string) string {
